@@ -231,6 +231,14 @@ func (c *Ctx) isCfgTerm(fa *FnAnalysis, s *State, t *Term, addr ssa.Value) bool 
 }
 
 func (c *Ctx) ruleSlot0() {
+	c.ruleSlot0Stores()
+	c.ruleSlot0New()
+	c.ruleSlot0Args()
+	c.ruleSlot0Elems()
+}
+
+// ruleSlot0Stores: the header-store part of R-SLOT0 (also re-run in concurrent mode by C10).
+func (c *Ctx) ruleSlot0Stores() {
 	rep := c.rep
 	stores := c.hdrStores()
 	ords := map[*ssa.Function]*ordinal{}
@@ -277,9 +285,6 @@ func (c *Ctx) ruleSlot0() {
 	if nReal < 8 {
 		rep.bad("R-SLOT0", "package", "header stores", "?", fmt.Sprintf("only %d header stores found (expected >= 8): the store enumeration no longer matches the code", nReal))
 	}
-	c.ruleSlot0New()
-	c.ruleSlot0Args()
-	c.ruleSlot0Elems()
 }
 
 // ruleSlot0New: the only place a stack object is created is newStack, whose
